@@ -6,9 +6,8 @@
   components have been written each one is found unchanged at its published position, because
   published fields are disjoint and inside the BBAN; the error class for an over-long component
   (bank, branch, account — in that order) and for an unknown country / a country without
-  positions.  The glue between these (that the assembled BBAN goes through `from_bban` and the
-  validating constructor) is by definition of the model and covered by the correspondence stream;
-  totality of `generate` (no foreign exception) is checked dynamically.
+  positions.  The end-to-end statements — `generate` is total, and a returned IBAN is accepted and
+  carries every supplied component at its published position — are in `C08EndToEnd.lean`.
 -/
 import SV.Proofs.Placement
 import SV.Props.C10
